@@ -508,6 +508,15 @@ fn run_single_program(
             let pid: i32 = child.into();
             if idx_cmd == 0 {
                 *pgid = pid;
+            }
+            // put the child into the job's process group from the parent side
+            // too (the child does the same): whichever runs first, the group
+            // exists before a later stage tries to join it and before the
+            // terminal is given to it.
+            unsafe {
+                libc::setpgid(pid, *pgid);
+            }
+            if idx_cmd == 0 {
                 unsafe {
                     // we need to wait pgid of child set to itself,
                     // before give terminal to it (for macos).
